@@ -1,0 +1,13 @@
+//go:build verif && amd64 && gc && !purego
+
+package argon2
+
+// VerifHasAsm reports whether the SSE assembly block function is compiled in.
+const VerifHasAsm = true
+
+// VerifProcessBlockSSE runs the assembly-backed compression function
+// (SSE2 mix/xor; BlaMka in SSE4.1 assembly or portable Go per useSSE4).
+func VerifProcessBlockSSE(out, in1, in2 *[128]uint64, xor bool) bool {
+	processBlockSSE((*block)(out), (*block)(in1), (*block)(in2), xor)
+	return true
+}
